@@ -366,13 +366,14 @@ func formatType(tr *tokenReader) []byte {
 		typeBytes = append(typeBytes, tr.Token().concrete...)
 	}
 
-	// ...[]?
-	tr.Next()
-	if tr.Token().kind == tokenKindOpenSquare {
+	// ...[]? (any number of times)
+	for tr.Next() {
+		if tr.Token().kind != tokenKindOpenSquare {
+			tr.UnNext()
+			break
+		}
 		tr.Next()
 		typeBytes = append(typeBytes, []byte("[]")...)
-	} else {
-		tr.UnNext()
 	}
 
 	return typeBytes
